@@ -178,6 +178,9 @@ class RSAPSSAlgModel(JWSAlgModel):
 
     def verify(self, msg: bytes, sig: bytes, key: RSAKey) -> bool:
         op_key = key.get_op_key("verify")
+        # RFC 8017, section 8.1.2, step 1: the signature has the length of the modulus
+        if len(sig) != (op_key.key_size + 7) // 8:
+            return False
         try:
             op_key.verify(sig, msg, self.padding, self.hash_alg())
             return True
